@@ -3,8 +3,10 @@
    cross-reference section there yields, so every cyclic or self-referential
    /Prev and /XRefStm wiring is covered.  An event EvSection stands for one
    ITERATION of the loop (the code parses a classic table twice within its
-   iteration - first into a scratch map to learn whether the trailer has
-   /Prev - which the model abstracts into the one [read_section] result).
+   iteration - first into a scratch map to learn its trailer, then, after the
+   /XRefStm stream whose entries take precedence, for real - which the model
+   abstracts into the one [read_section] result; an error of the second parse
+   has the same class as the first).
    Definitions only. *)
 From Coq Require Import List ZArith Bool Lia.
 From GoPdf.Base Require Import Res.
